@@ -2313,7 +2313,7 @@ impl<'store> QueryIter<'store> {
         let query = self.get_query(&self.querypath).expect("query must exist");
         let mut constraintsiter = query.constraints.iter();
 
-        let iter = match query.resulttype {
+        let iter = (|| match query.resulttype {
             ///////////////////////////// target= RESOURCE ////////////////////////////////////////////
             Some(Type::TextResource) => {
                 let mut iter = self.init_state_resources(constraintsiter.next())?;
@@ -2366,7 +2366,30 @@ impl<'store> QueryIter<'store> {
             }
             None => unreachable!("Query must have a result type"),
             _ => unimplemented!("Query result type not implemented"),
-        }?;
+        })();
+        let iter = match iter {
+            Ok(iter) => iter,
+            Err(StamError::NotFoundError(..)) => {
+                // a constraint names an item that does not exist: nothing satisfies it. This is an
+                // empty result for this (sub)query, not a reason to give up the whole query
+                // (an OPTIONAL subquery must still leave the results of the outer query alone)
+                match query.resulttype {
+                    Some(Type::TextResource) => {
+                        QueryResultIter::Resources(Box::new(std::iter::empty()))
+                    }
+                    Some(Type::Annotation) => {
+                        QueryResultIter::Annotations(Box::new(std::iter::empty()))
+                    }
+                    Some(Type::TextSelection) => {
+                        QueryResultIter::TextSelections(Box::new(std::iter::empty()))
+                    }
+                    Some(Type::AnnotationData) => QueryResultIter::Data(Box::new(std::iter::empty())),
+                    Some(Type::DataKey) => QueryResultIter::Keys(Box::new(std::iter::empty())),
+                    _ => QueryResultIter::DataSets(Box::new(std::iter::empty())),
+                }
+            }
+            Err(e) => return Err(e),
+        };
 
         self.statestack.push(QueryState {
             iterator: iter,
